@@ -19,7 +19,7 @@ const monConv = "TestVerifConv"
 func TestVerifConv(t *testing.T) {
 	lib.Mandatory("conv:tuples", "conv:bigint2bytes:too-big", "conv:bigint2bytes:negative", "conv:bigint2u64:too-big", "conv:bigint2u64:negative",
 		"conv:empty", "conv:bytesbe2u64:partial-limb")
-	bf.Chunks(nTuples(), chunk, func(lo, hi int, c bf.Ctr) {
+	bf.Chunks(nTuplesGo(), chunk, func(lo, hi int, c bf.Ctr) {
 		for i := lo; i < hi; i++ {
 			r := lib.NewRng("c12/conv", i)
 			ln := r.Intn(70)
